@@ -20,7 +20,7 @@ checks = {
    "All schedules (pre-emption bound 2/3, early timer firing as a deviation) of 1-3 concurrent askers using AskOnce / AskChannel / AskOnceWithTimeout against an actor that replies at once, after a yield, 20 virtual ms late, or never, each followed by a second ask; every asker must receive the answer computed from its own payload or a clean (zero, ErrActorAskTimeout), no goroutine may panic or stay blocked, later asks must be served.",
    "Bounded askers/pre-emptions; virtual time; SC interleavings; vsched runtime model.", "DESIGN.md §2, §5 C13"),
  "C08": ("E1", E1,
-   "All schedules (pre-emption bound 2/3) of 2-3 client threads x 1-2 operations on a ConcurrentQueue / ConcurrentStack wrapping (i) a hostile non-thread-safe probe container that yields inside every method and detects overlapping calls and (ii) the real LinkedListQueue with race-directed scheduling points on its fields; every complete call/return history (plus a final sequential drain) must be linearizable w.r.t. a FIFO/LIFO model (porcupine, cross-checked by brute force), with no overlap, panic or blocked thread.",
+   "All schedules (pre-emption bound 2 quick / 4 thorough, 3 for three clients) of 2-3 client threads x 1-3 operations on a ConcurrentQueue / ConcurrentStack wrapping (i) a hostile non-thread-safe probe container that yields inside every method and detects overlapping calls and (ii) the real LinkedListQueue with race-directed scheduling points on its fields; every complete call/return history (plus a final sequential drain) must be linearizable w.r.t. a FIFO/LIFO model (porcupine, cross-checked by brute force), with no overlap, panic or blocked thread.",
    "Bounded clients/operations/pre-emptions; SC interleavings; vsched runtime model; porcupine v1.3.0 as history judge.", "DESIGN.md §2, §5 C08"),
  "C16": ("E1", E1,
    "All schedules (pre-emption bound 2, 1 for the larger lists; happens-before state cache) of PMap over lists of length 0-3 (thorough 0-4) x FixedPool in {no option,-1,0,1,2,len,len+1} x ordered/RandomOrder with a data-dependent-duration f that yields inside: result equals Map(f,list) (or a permutation), f applied exactly once per element, at most min(FixedPool,len) applications in flight, none after return, every execution terminates.",
